@@ -22,9 +22,9 @@ func (c10) Technique() string {
 }
 func (c10) Runs(tier string) int {
 	if tier == "thorough" {
-		return 1500000
+		return 3750000
 	}
-	return 120000
+	return 250000
 }
 func (c10) Rule() string {
 	return "one mutex-enabled stack, 2-3 tasks x 1-3 mutators, seeded schedule at lock.want/held/released (+cfg.read knob); non-trivial = at least one context switch between a task's op start and its lock acquisition or inside another task's op; distinct = hash(programs, lock order, schedule)"
